@@ -1,6 +1,6 @@
 """What is claimed, per property. A property appears in CLAIMS only once its checker exists and
 passes on the unchanged tree."""
-FIX_COMMITS = ["4e9e139", "5ee6583", "744f482", "eb93a13", "ceb972a", "a924d81", "2127bcd", "d45c8ce", "840f793", "c6f0e0e", "026690a", "cee72dd", "d6006a0", "846c668", "74129bf", "7f18343", "8354688"]
+FIX_COMMITS = ["4e9e139", "5ee6583", "744f482", "eb93a13", "ceb972a", "a924d81", "2127bcd", "d45c8ce", "840f793", "c6f0e0e", "026690a", "cee72dd", "d6006a0", "846c668", "74129bf", "7f18343", "8354688", "82fa6bb", "6319c34"]
 
 CLAIMS = {
     "C09": dict(
@@ -179,6 +179,17 @@ CLAIMS = {
         ref="DESIGN.md §3 C03",
         note="scratch flags overwritten before each read are not carried state; one known finding (shared one-shot domain generator)",
         technique="static analysis: effect analysis (accumulate/reset sites) over the call-graph evaluation closure + CFG dominance",
+    ),
+    "C10": dict(
+        text="Decides both halves structurally with taint analyses over phase closures of the call graph: on the construction closure "
+             "(seeded at the public builders' user-data parameters, propagated through calls, dataclass construction and field reads, with "
+             "isinstance / exact-builtin-container / is_iterable refinements) user values are only stored, passed on, lazily wrapped or "
+             "type-probed; on the evaluation closure result streams and domains flow only into streaming constructs (no list/sorted/len, "
+             "eager comprehension, star-unpacking or itertools.product), with the universal quantifier and the() exempt by name and reason. "
+             "The exact prefix consumed per result is not decided.",
+        ref="DESIGN.md §3 C10",
+        note="seed table of user-data parameters (kverif/rules/c10.py SEEDS); protocol attributes _name_ are taken to exist on expressions only",
+        technique="static analysis: interprocedural taint (RAW/BOX kinds) over BUILD and EVAL call-graph closures, with positive control",
     ),
 }
 
